@@ -286,6 +286,38 @@ Proof.
   exists s'. rewrite eo_drain_spec, Hd. cbn [app]. repeat split; assumption.
 Qed.
 
+(* the same two adapters the other way round, [PagedResults, EntriesOnly]: EntriesOnly sits inside and sees every page's stream - it hands
+   on that page's entries and keeps its reference URIs (in the adapter, across pages; merged into the result by its finish()). PagedResults
+   outside therefore pages over streams whose items are already entries only: the caller sees the same entries in the same order, the same
+   requests go out, and the URIs kept are those of all pages in order *)
+Definition inner_eo (p : page) : page := mkPage (map Entry (entries_of (p_items p))) (p_result p).
+Lemma entries_of_app a b : entries_of (a ++ b) = entries_of a ++ entries_of b. Proof. unfold entries_of. apply flat_map_app. Qed.
+Lemma refs_of_app a b : refs_of (a ++ b) = refs_of a ++ refs_of b. Proof. unfold refs_of. apply flat_map_app. Qed.
+Lemma entries_of_entries l : entries_of (map Entry l) = l. Proof. induction l as [|k l IH]; [reflexivity|]. change (entries_of (map Entry (k :: l))) with (k :: entries_of (map Entry l)). now rewrite IH. Qed.
+Lemma flat_inner_eo pages : flat_map p_items (map inner_eo pages) = map Entry (entries_of (flat_map p_items pages)).
+Proof. induction pages as [|p r IH]; [reflexivity|]. cbn [map flat_map inner_eo p_items]. now rewrite IH, entries_of_app, map_app. Qed.
+Lemma refs_pagewise pages : flat_map (fun p => refs_of (p_items p)) pages = refs_of (flat_map p_items pages).
+Proof. induction pages as [|p r IH]; [reflexivity|]. cbn [flat_map]. now rewrite IH, refs_of_app. Qed.
+Lemma wf_inner_eo cur rest : wf_script cur rest -> wf_script cur (map inner_eo rest).
+Proof. revert cur. induction rest as [|p r IH]; intros cur H; [exact H|]. cbn [map wf_script inner_eo p_result] in *. destruct H as [H1 H2]. split; [exact H1|now apply IH]. Qed.
+Lemma last_inner_eo cur rest : last_result cur (map inner_eo rest) = last_result cur rest.
+Proof. revert cur. induction rest as [|p r IH]; intros cur; [reflexivity|]. cbn [map last_result inner_eo p_result]. apply IH. Qed.
+Lemma followups_inner_eo pa uc sz cur rest : followups pa uc sz cur (map inner_eo rest) = followups pa uc sz cur rest.
+Proof. revert cur. induction rest as [|p r IH]; intros cur; [reflexivity|]. cbn [map followups inner_eo p_result]. now rewrite IH. Qed.
+Theorem c16_entries_only_inside fx params user_ctrls size p rest s0 :
+  start params user_ctrls size (map inner_eo (p :: rest)) = Some s0 -> wf_script (p_result p) rest ->
+  exists s', drain fx (S (length (flat_map p_items (map inner_eo (p :: rest))) + length (map inner_eo (p :: rest)))) s0 = (map Entry (entries_of (flat_map p_items (p :: rest))), s') /\
+    st s' = Done /\ res s' = Some (final_of (last_result (p_result p) rest)) /\
+    wire s' = mkReq params (user_ctrls ++ [CPaged size []]) :: followups params user_ctrls size (p_result p) rest /\
+    flat_map (fun q => refs_of (p_items q)) (p :: rest) = refs_of (flat_map p_items (p :: rest)).
+Proof.
+  intros Hs Hwf. cbn [map] in Hs.
+  destruct (c16 fx params user_ctrls size (inner_eo p) (map inner_eo rest) s0 Hs (wf_inner_eo _ _ Hwf)) as (s' & Hd & Hst & Hres & Hw).
+  exists s'. cbn [map]. rewrite Hd. change (inner_eo p :: map inner_eo rest) with (map inner_eo (p :: rest)). rewrite flat_inner_eo.
+  cbn [inner_eo p_result] in Hres, Hw. rewrite last_inner_eo in Hres. rewrite followups_inner_eo in Hw.
+  repeat split; try assumption. apply refs_pagewise.
+Qed.
+
 (* the other response controls of the final result come through untouched and in order, wherever the paging control sat among them *)
 Definition others (cs : list ctl) : list ctl := filter (fun c => negb (is_paged c)) cs.
 Lemma filter_all_id {A} (f : A -> bool) l : (forall x, In x l -> f x = true) -> filter f l = l.
